@@ -1,0 +1,34 @@
+//go:build verif
+
+package coordinator
+
+import (
+	"time"
+
+	meta2 "github.com/openGemini/openGemini/lib/util/lifted/influx/meta"
+	"github.com/openGemini/openGemini/lib/util/lifted/vm/protoparser/influx"
+)
+
+// VerifC11Router lets the C11 verification harness call the write path's routing step
+// (PointsWriter.updateShardGroupAndShardKey) on single rows. Thin wrapper, no behaviour.
+type VerifC11Router struct {
+	pw  *PointsWriter
+	ctx *injestionCtx
+}
+
+func VerifC11NewRouter(mc PWMetaClient, db *meta2.DatabaseInfo, ms *meta2.MeasurementInfo) *VerifC11Router {
+	pw := NewPointsWriter(time.Second)
+	pw.MetaClient = mc
+	ctx := &injestionCtx{}
+	ctx.writeHelper = newWriteHelper(pw)
+	ctx.db = db
+	ctx.ms = ms
+	return &VerifC11Router{pw: pw, ctx: ctx}
+}
+
+// SetSameMst mimics what writeHelper.createMeasurement records for consecutive rows of one measurement.
+func (r *VerifC11Router) SetSameMst(v bool) { r.ctx.writeHelper.sameMst = v }
+
+func (r *VerifC11Router) Route(database, retentionPolicy string, row *influx.Row) (err error, sh *meta2.ShardInfo, partialErr error) {
+	return r.pw.updateShardGroupAndShardKey(database, retentionPolicy, row, r.ctx, false, nil, 0, false)
+}
